@@ -299,6 +299,29 @@ class C01(PropBase):
     oracle_text = "observable state (queues, records with payload hashes, next positions) printed by the last call before each drop must equal the state printed by the following open"
 
     def gen_one(self, rng, i):
+        if i % 6 == 2:
+            # GC whose own position records roll the writer over: two (or three) empty queues, the oldest
+            # file becomes free while the cursor sits r bytes before the end of the current file
+            import props2
+            r = rng.randrange(8, 90)
+            nq = rng.choice([2, 2, 3])
+            cmds = ["open %s" % rng.choice(self.policies)]
+            cursor = 0
+            for k in range(nq):
+                cmds.append("create =q%d" % k); cursor = mrl.advance(cursor, 11 + 2)
+            for k in range(1, nq):
+                cmds.append("append =q%d - 5:%d" % (k, k)); cursor = mrl.advance(cursor, 11 + 2 + 12 + 5)
+                cmds.append("truncate =q%d %d" % (k, rng.choice([0, 0, 3]))); cursor = mrl.advance(cursor, 11 + 2)
+            target = 2 * mrl.FILE - r - (7 + 11 + 2)          # leave room for the Truncate entry, then r bytes
+            l = props2.aim_stream_pos(cursor, 2, target)
+            if l is not None:
+                cmds.append("append =q0 - %d:9" % l)
+                cmds.append("truncate =q0 0")
+                cmds += ["drop", "open af"]
+                if rng.random() < 0.5:
+                    cmds += ["append =q1 - 3:3", "drop", "open af"]
+                self.stats["gc_roll_profile"] = self.stats.get("gc_roll_profile", 0) + 1
+                return cmds
         g = HistGen(rng, policy=rng.choice(self.policies))
         g.run(rng.randrange(8, 40), weights={"create": 8, "delete": 5, "append": 45, "truncate": 27, "persist": 3, "restart": 9})
         g.op_restart()
@@ -477,6 +500,19 @@ class C16(PropBase):
                          "checked at run time after every call, proved only from the contract len <= capacity (C16_used_le_allocated_from_contract)"]
 
     def gen_one(self, rng, i):
+        if i % 12 == 5:
+            # a long queue (more than a thousand retained records) with small truncations of its head
+            cmds = ["open %s" % rng.choice(self.policies), "create =long"]
+            n = 0
+            for k in range(rng.randrange(8, 14)):
+                m = rng.randrange(90, 180)
+                cmds.append("append =long - " + " ".join("%d:%d" % (rng.choice([0, 1, 20, 100, 100, 300]), 700 + n + j) for j in range(m)))
+                n += m
+            for p in sorted(rng.sample(range(0, n // 3), 4)):
+                cmds.append("truncate =long %d" % p)
+            cmds.append("truncate =long %d" % (n - 1))
+            self.stats["long_queue_profile"] = self.stats.get("long_queue_profile", 0) + 1
+            return cmds
         g = HistGen(rng, policy=rng.choice(self.policies))
         g.run(rng.randrange(8, 40), weights={"create": 8, "delete": 5, "append": 52, "truncate": 28, "persist": 1, "restart": 3})
         for tok, q in list(g.ref.q.items()):
